@@ -307,13 +307,22 @@ def _registry(ck: Check, prog: Program) -> None:
                    'called on (the supplied base): typed except clauses depend on it')
     if gec is not None:
         m = gec[1]
-        ok2 = False
-        for st in walk_own(m.node):
-            if isinstance(st, ast.Return) and isinstance(st.value, ast.Call) and isinstance(st.value.func, ast.Attribute) and \
-                    st.value.func.attr == 'get' and len(st.value.args) == 2 and \
-                    dotted(st.value.args[0]) == m.params[1].arg and dotted(st.value.args[1]) == m.params[2].arg and \
-                    '__errors_mapping__' in norm(st.value.func.value):
-                ok2 = True
+        from ..flow import Flow as _F2
+        cfg_m = CFG(m, prog)
+        fl_m = _F2(cfg_m)
+        rets_m = [n_ for n_ in cfg_m.stmt_nodes() if n_.kind == 'stmt' and isinstance(n_.ast, ast.Return)]
+        ok2 = bool(rets_m)
+        for n_ in rets_m:
+            alts_m = fl_m.alts(n_, n_.ast.value) if n_.ast.value is not None else []
+            if not alts_m:
+                ok2 = False
+            for al in alts_m:
+                v = al.expr
+                good = isinstance(v, ast.Call) and isinstance(v.func, ast.Attribute) and v.func.attr == 'get' and len(v.args) == 2 and \
+                    not v.keywords and dotted(v.args[0]) == m.params[1].arg and dotted(v.args[1]) == m.params[2].arg and \
+                    any('__errors_mapping__' in norm(b_.expr) for b_ in fl_m.alts(al.node or n_, v.func.value))
+                if not good:
+                    ok2 = False
         ck.ob('REGISTRY', f'{short(m.qualname)} = registry.get(code, default)', ok2)
         if not ok2:
             ck.finding('REGISTRY', m.qualname, 'registry lookup', m.module.rel, m.node.lineno,
